@@ -241,37 +241,86 @@ fn gen_parameterized(rng: &mut Rng, k: usize) -> Pair {
     let kinds: Vec<bool> = (0..n_params).map(|_| rng.chance(1, 2)).collect(); // true = type
     // governors of value parameters: the built-in type, a user-defined type, user-defined types spelled in capitals
     let govs: Vec<&str> = kinds.iter().map(|_| *rng.pick(&["INTEGER", "INTEGER", "Gov-Int", "UINT8", "N", "OCTET-COUNT"])).collect();
-    let params: Vec<String> = kinds.iter().enumerate().map(|(i, t)| if *t { format!("T{i}") } else { format!("{} : n{i}", govs[i]) }).collect();
+    // value arguments are literals or references to constants of the module. The name of a formal value parameter is a
+    // fresh one, or the name of the constant the first instance passes for it, or the name of a constant the first
+    // instance passes for ANOTHER parameter: a formal parameter hides a definition of the same name inside the template
+    // only, the arguments are written in the scope of the instance
+    let n_inst = 1 + rng.below(3);
+    let by_ref: Vec<Vec<bool>> = (0..n_inst).map(|_| kinds.iter().map(|t| !*t && rng.chance(1, 2)).collect()).collect();
+    let gname = |j: usize, i: usize| format!("gk{k}i{j}p{i}");
+    let value_params: Vec<usize> = (0..n_params).filter(|i| !kinds[*i]).collect();
+    let formal: Vec<String> = (0..n_params)
+        .map(|i| {
+            if kinds[i] {
+                format!("T{i}")
+            } else {
+                match rng.below(4) {
+                    0 if by_ref[0][i] => gname(0, i),
+                    1 => match value_params.iter().find(|o| **o != i && by_ref[0][**o]) {
+                        Some(o) => gname(0, *o),
+                        None => format!("n{i}"),
+                    },
+                    _ => format!("n{i}"),
+                }
+            }
+        })
+        .collect();
+    // two formals must not share a name
+    let formal: Vec<String> = formal.iter().enumerate().map(|(i, f)| if formal[..i].contains(f) { format!("n{i}") } else { f.clone() }).collect();
+    let params: Vec<String> = kinds.iter().enumerate().map(|(i, t)| if *t { formal[i].clone() } else { format!("{} : {}", govs[i], formal[i]) }).collect();
     let mut members: Vec<String> = Vec::new();
     for (i, t) in kinds.iter().enumerate() {
         if *t {
-            members.push(format!("x{i} T{i}"));
-            members.push(format!("l{i} SEQUENCE OF T{i}"));
+            members.push(format!("x{i} <T{i}>"));
+            members.push(format!("l{i} SEQUENCE OF <T{i}>"));
         } else {
-            members.push(format!("y{i} [{}] INTEGER (0..n{i})", 10 + i));
+            members.push(format!("y{i} [{}] INTEGER (0..<V{i}>)", 10 + i));
         }
     }
     // tags without IMPLICIT / EXPLICIT: the module default decides, in the instance as in the hand-expanded type
     members.push("fixed [7] BOOLEAN".into());
     members.push("nested [8] SEQUENCE { deep [0] NULL, more [1] OCTET STRING OPTIONAL }".into());
+    // the values of all instances (needed up front: a constant of the module may be defined by reference to a constant
+    // that is named like a formal parameter, and the template may use it: that reference is not the parameter)
+    let all_vals: Vec<Vec<String>> = (0..n_inst)
+        .map(|_| kinds.iter().map(|t| if *t { rng.pick(&["BOOLEAN", "INTEGER", "UTF8String", "NULL"]).to_string() } else { format!("{}", 1 + rng.below(250)) }).collect())
+        .collect();
+    let hidden_const: Option<(String, String)> = (0..n_params).find(|i| !kinds[*i] && formal[*i].starts_with("gk")).and_then(|i| {
+        // formal[i] = gname(0, o) for some value parameter o of the first instance
+        (0..n_params).find(|o| gname(0, *o) == formal[i]).map(|o| (formal[i].clone(), all_vals[0][o].clone()))
+    });
+    if hidden_const.is_some() {
+        members.push("via [20] INTEGER (0..<CHAIN>)".to_string());
+    }
     let body = format!("SEQUENCE {{ {} }}", members.join(", "));
-    let gov_defs = "Gov-Int ::= INTEGER\nUINT8 ::= INTEGER (0..255)\nN ::= INTEGER\nOCTET-COUNT ::= INTEGER (0..65535)\n";
-    let mut sug = format!("{tpl} {{ {} }} ::= {body}\n", params.join(", "));
-    let mut exp = String::new();
-    let mut targets = Vec::new();
-    for j in 0..1 + rng.below(3) {
-        let inst = spell(rng, "Inst", k * 10 + j, true);
-        let args: Vec<String> = kinds.iter().map(|t| if *t { rng.pick(&["BOOLEAN", "INTEGER", "UTF8String", "NULL"]).to_string() } else { format!("{}", 1 + rng.below(250)) }).collect();
-        sug.push_str(&format!("{inst} ::= {tpl} {{ {} }}\n", args.join(", ")));
-        let mut b = body.clone();
-        for (i, t) in kinds.iter().enumerate() {
-            if *t {
-                b = b.replace(&format!("T{i}"), &args[i]);
-            } else {
-                b = b.replace(&format!("n{i}"), &args[i]);
-            }
+    let chain_name = format!("ch{k}");
+    let fill = |b: &str, with: &dyn Fn(usize) -> String| -> String {
+        let mut b = b.to_string();
+        for i in 0..n_params {
+            b = b.replace(&format!("<T{i}>"), &with(i)).replace(&format!("<V{i}>"), &with(i));
         }
-        exp.push_str(&format!("{inst} ::= {b}\n"));
+        b
+    };
+    let gov_defs = "Gov-Int ::= INTEGER\nUINT8 ::= INTEGER (0..255)\nN ::= INTEGER\nOCTET-COUNT ::= INTEGER (0..65535)\n";
+    let mut sug = format!("{tpl} {{ {} }} ::= {}\n", params.join(", "), fill(&body, &|i| formal[i].clone()).replace("<CHAIN>", &chain_name));
+    let mut exp = String::new();
+    let mut consts = String::new();
+    let mut targets = Vec::new();
+    for j in 0..n_inst {
+        let inst = spell(rng, "Inst", k * 10 + j, true);
+        let vals: Vec<String> = all_vals[j].clone();
+        let args: Vec<String> = (0..n_params)
+            .map(|i| {
+                if by_ref[j][i] {
+                    consts.push_str(&format!("{} INTEGER ::= {}\n", gname(j, i), vals[i]));
+                    gname(j, i)
+                } else {
+                    vals[i].clone()
+                }
+            })
+            .collect();
+        sug.push_str(&format!("{inst} ::= {tpl} {{ {} }}\n", args.join(", ")));
+        exp.push_str(&format!("{inst} ::= {}\n", fill(&body, &|i| vals[i].clone()).replace("<CHAIN>", hidden_const.as_ref().map(|h| h.1.as_str()).unwrap_or("0"))));
         targets.push(inst);
     }
     if rng.chance(1, 2) {
@@ -282,8 +331,12 @@ fn gen_parameterized(rng: &mut Rng, k: usize) -> Pair {
         sug = lines.join("\n") + "\n";
     }
     let header = *rng.pick(&["AUTOMATIC TAGS", "EXPLICIT TAGS", "IMPLICIT TAGS", "EXPLICIT TAGS EXTENSIBILITY IMPLIED"]);
-    let (sug, exp) = (format!("{sug}{gov_defs}"), format!("{exp}{gov_defs}"));
-    Pair { kind: format!("parameterized:{n_params}params"), sugared: module_h("Sug", header, &sug), expanded: module_h("Sug", header, &exp), targets, env: vec![] }
+    if let Some((target, _)) = &hidden_const {
+        consts.push_str(&format!("{chain_name} INTEGER ::= {target}\n"));
+    }
+    let (sug, exp) = (format!("{sug}{consts}{gov_defs}"), format!("{exp}{consts}{gov_defs}"));
+    let shadow = (0..n_params).any(|i| !kinds[i] && formal[i].starts_with("gk"));
+    Pair { kind: format!("parameterized:{n_params}params{}", if shadow { ":formal-named-like-a-constant" } else { "" }), sugared: module_h("Sug", header, &sug), expanded: module_h("Sug", header, &exp), targets, env: vec![] }
 }
 
 fn gen_selection(rng: &mut Rng, k: usize) -> Pair {
@@ -555,5 +608,140 @@ pub fn run(cfg: &RunCfg) -> Report {
         }
         Err(e) => rep.harness_errors.push(e),
     }
+    if cfg.replay.is_none() || cfg.replay.as_ref().is_some_and(|r| r.get("case").unwrap_or(r).get("value_params").is_some()) {
+        value_parameter_scoping(cfg, &mut rep);
+    }
     rep
+}
+
+/// Function-level tie of the Lean model `Link/Params` (scoping of value parameters): modules of constants (literals and
+/// references to other constants, chains up to three long), one template with 1..3 value parameters whose names are
+/// fresh or coincide with names of constants, a body whose bounds refer to formals and to constants, one instance whose
+/// arguments are literals or references to constants; names are spelled so that the template is linked before or after
+/// its instance. Observed: the upper bounds of the members of the instance. Compared with the model (`instantiate`) and
+/// judged by the spec (`expanded`: simultaneous substitution, then an ordinary definition).
+fn value_parameter_scoping(cfg: &RunCfg, rep: &mut Report) {
+    let mut rng = Rng::new(cfg.seed ^ 0x9A7A);
+    let only = cfg.replay.as_ref().map(|r| r.get("case").unwrap_or(r)["value_params"].clone());
+    let n = if only.is_some() { 1 } else { cfg.budget(150, 3000) };
+    let mut reqs = Vec::new();
+    let mut observed = Vec::new();
+    let mut descr = Vec::new();
+    for it in 0..n {
+        // (name, literal | reference)
+        let (consts, formals, body, args, tpl_name, inst_name): (Vec<(String, Result<i64, String>)>, Vec<String>, Vec<Result<i64, String>>, Vec<Result<i64, String>>, String, String) = if let Some(o) = &only {
+            let val = |v: &serde_json::Value| -> Result<i64, String> { v.as_i64().map(Ok).unwrap_or_else(|| Err(v.as_str().unwrap_or("").to_string())) };
+            (
+                o["consts"].as_array().map(|a| a.iter().map(|d| (d[0].as_str().unwrap_or("").to_string(), val(&d[1]))).collect()).unwrap_or_default(),
+                o["formals"].as_array().map(|a| a.iter().map(|x| x.as_str().unwrap_or("").to_string()).collect()).unwrap_or_default(),
+                o["body"].as_array().map(|a| a.iter().map(val).collect()).unwrap_or_default(),
+                o["args"].as_array().map(|a| a.iter().map(val).collect()).unwrap_or_default(),
+                o["template"].as_str().unwrap_or("Tpl").to_string(),
+                o["instance"].as_str().unwrap_or("Inst").to_string(),
+            )
+        } else {
+            let n_c = 1 + rng.below(5);
+            let mut consts: Vec<(String, Result<i64, String>)> = Vec::new();
+            for c in 0..n_c {
+                let name = format!("{}c{it}x{c}", if rng.chance(1, 2) { "a" } else { "z" });
+                // a reference only to an earlier constant: no cycles, chains up to the number of constants
+                let v = if c > 0 && rng.chance(1, 2) { Err(consts[rng.below(c)].0.clone()) } else { Ok(1 + rng.below(200) as i64) };
+                consts.push((name, v));
+            }
+            let n_f = 1 + rng.below(3);
+            let mut formals: Vec<String> = Vec::new();
+            for f in 0..n_f {
+                let name = if rng.chance(1, 2) { rng.pick(&consts).0.clone() } else { format!("p{f}") };
+                formals.push(if formals.contains(&name) { format!("p{f}") } else { name });
+            }
+            let mut body: Vec<Result<i64, String>> = Vec::new();
+            for _ in 0..1 + rng.below(4) {
+                body.push(match rng.below(5) {
+                    0 => Ok(1 + rng.below(200) as i64),
+                    1 | 2 => Err(rng.pick(&formals).clone()),
+                    _ => Err(rng.pick(&consts).0.clone()),
+                });
+            }
+            let args: Vec<Result<i64, String>> = (0..n_f).map(|_| if rng.chance(1, 2) { Err(rng.pick(&consts).0.clone()) } else { Ok(1 + rng.below(200) as i64) }).collect();
+            let (t, i) = if rng.chance(1, 2) { (format!("ATpl{it}"), format!("ZInst{it}")) } else { (format!("ZTpl{it}"), format!("AInst{it}")) };
+            (consts, formals, body, args, t, i)
+        };
+        let show = |v: &Result<i64, String>| match v { Ok(n) => n.to_string(), Err(x) => x.clone() };
+        let mut src = String::from("Par-Mod DEFINITIONS AUTOMATIC TAGS ::= BEGIN\n");
+        for (name, v) in &consts {
+            src.push_str(&format!("{name} INTEGER ::= {}\n", show(v)));
+        }
+        let members: Vec<String> = body.iter().enumerate().map(|(k, b)| format!("y{k} INTEGER (0..{})", show(b))).collect();
+        src.push_str(&format!("{tpl_name} {{ {} }} ::= SEQUENCE {{ {} }}\n", formals.iter().map(|f| format!("INTEGER : {f}")).collect::<Vec<_>>().join(", "), members.join(", ")));
+        src.push_str(&format!("{inst_name} ::= {tpl_name} {{ {} }}\nEND\n", args.iter().map(show).collect::<Vec<_>>().join(", ")));
+        rep.evaluations += 1;
+        rep.count("value-parameter-scoping");
+        if formals.iter().any(|f| consts.iter().any(|c| &c.0 == f)) {
+            rep.count("value-parameter-scoping:formal-named-like-a-constant");
+        }
+        let case = json!({"value_params": {
+            "consts": consts.iter().map(|(n, v)| json!([n, match v { Ok(k) => json!(k), Err(x) => json!(x) }])).collect::<Vec<_>>(),
+            "formals": formals, "body": body.iter().map(|v| match v { Ok(k) => json!(k), Err(x) => json!(x) }).collect::<Vec<_>>(),
+            "args": args.iter().map(|v| match v { Ok(k) => json!(k), Err(x) => json!(x) }).collect::<Vec<_>>(),
+            "template": tpl_name, "instance": inst_name}, "source": src});
+        let obs: Vec<String> = match compile_rasn(&[src.clone()]) {
+            Outcome::Ok { generated, .. } => match crate::proj::project(&generated) {
+                Ok(ms) => match ms.iter().find_map(|m| m.item(&inst_name)).map(|i| &i.kind) {
+                    Some(crate::proj::ItemKind::Struct { fields, .. }) => fields
+                        .iter()
+                        .map(|f| match f.attrs.get("value") {
+                            // "0..=K"
+                            Some(v) => v.trim_matches('"').rsplit("..=").next().filter(|_| v.contains("..=")).map(|k| k.to_string()).unwrap_or_else(|| format!("?{v}")),
+                            None => "?".to_string(),
+                        })
+                        .collect(),
+                    _ => {
+                        rep.unsat("", false, json!({"why": "the instance is not generated as a struct", "case": case}));
+                        continue;
+                    }
+                },
+                Err(e) => {
+                    rep.harness_errors.push(format!("projection failed: {e}"));
+                    continue;
+                }
+            },
+            Outcome::Err(e) => {
+                rep.unsat("", false, json!({"why": format!("the module does not compile: {e}"), "case": case}));
+                continue;
+            }
+            Outcome::Panic(p) => {
+                rep.unsat("", false, json!({"why": format!("panic: {p}"), "case": case}));
+                continue;
+            }
+        };
+        let sx = |v: &Result<i64, String>| match v { Ok(n) => format!("( lit {n} )"), Err(x) => format!("( ref {} )", hex(x)) };
+        reqs.push(format!(
+            "c09params {} {} {} {}",
+            sx_list(consts.iter().map(|(n, v)| format!("( {} {} )", hex(n), sx(v)))),
+            sx_list(formals.iter().map(|f| hex(f))),
+            sx_list(body.iter().map(sx)),
+            sx_list(args.iter().map(sx))
+        ));
+        observed.push(obs.join(" "));
+        descr.push(case);
+    }
+    match run_driver(&reqs) {
+        Ok(ans) => {
+            for (k, a) in ans.iter().enumerate() {
+                let parts: Vec<&str> = a.split(" | ").collect();
+                if parts.len() != 3 {
+                    rep.harness_errors.push(format!("driver answer `{a}`"));
+                    continue;
+                }
+                let agrees = parts[0] == observed[k];
+                if !agrees {
+                    rep.disagree(json!({"case": descr[k].clone(), "model": parts[0], "impl": observed[k]}));
+                }
+                if parts[2] == "t" && parts[1] != observed[k] {
+                    rep.unsat("", agrees, json!({"why": format!("the bounds of the instance are [{}], those of the hand-expanded definition [{}]", observed[k], parts[1]), "case": descr[k].clone()}));
+                }
+            }
+        }
+        Err(e) => rep.harness_errors.push(e),
+    }
 }
